@@ -4,8 +4,10 @@ package main
 // watchBackend loop driven by verifx.FakeConsul; used by C01, C02 (history part) and C14.
 
 import (
+	"encoding/json"
 	"fmt"
 	"os"
+	"sync/atomic"
 	"sort"
 	"strings"
 	"sync"
@@ -97,6 +99,10 @@ type cpRig struct {
 	first chan bool
 }
 
+// cpEpoch advances whenever the registry is reset (all instances absent) so that the tags of
+// "bad" instances rotate between histories, never while an instance is registered
+var cpEpoch int64
+
 var (
 	cpOnce   sync.Once
 	cpShared *cpRig
@@ -108,6 +114,20 @@ func cpStart(t *testing.T, status []string, checksRequired string) *cpRig {
 	cpOnce.Do(func() {
 		tr := &verifx.Trace{}
 		f := verifx.NewFakeConsul(cpInstances(), cpKV, tr)
+		if bf := os.Getenv("VERIF_BADTAGS"); bf != "" {
+			var lists [][]string
+			b, err := os.ReadFile(bf)
+			if err == nil {
+				err = json.Unmarshal(b, &lists)
+			}
+			if err != nil || len(lists) == 0 {
+				t.Fatalf("VERIF_BADTAGS: %v", err)
+			}
+			f.BadTagsFn = func(id string) []string {
+				k := int(atomic.LoadInt64(&cpEpoch)) + int(id[0]) + int(id[1])
+				return lists[k%len(lists)]
+			}
+		}
 		if fs := os.Getenv("VERIF_FAIL_STATUS"); fs != "" {
 			f.FailStatus = fs
 		}
@@ -176,6 +196,7 @@ func (r *cpRig) reset() {
 	r.F.SetNode("n1", "ok")
 	r.F.SetNode("n2", "ok")
 	r.F.SetKV("none")
+	atomic.AddInt64(&cpEpoch, 1)
 }
 
 func cpJoin(s []string) string { return "{" + strings.Join(s, ",") + "}" }
